@@ -55,7 +55,7 @@ func TestVerifNetns(t *testing.T) {
 			if x.Address.Addr().IsLinkLocalUnicast() {
 				continue // the kernel's own fe80:: address
 			}
-			ls = append(ls, x.Address.String()+" "+vBs(x.Deprecated)+vBs(x.Temporary)+vBs(x.Tentative)+vBs(x.ValidForever))
+			ls = append(ls, x.Address.String()+" "+vfVBs(x.Deprecated)+vfVBs(x.Temporary)+vfVBs(x.Tentative)+vfVBs(x.ValidForever))
 		}
 		sort.Strings(ls)
 		impl.S("addrs").N(len(ls))
